@@ -49,6 +49,10 @@ func init() {
 
 var posRe = regexp.MustCompile(`@[0-9]+@`)
 
+// mtimeRe: the modification-time part of a file version inside a symbol id ("path|unix-seconds|hash"). A file saved again with the
+// same bytes is the same file: graphs are compared modulo this stamp (the content hash stays part of the identity).
+var mtimeRe = regexp.MustCompile(`\|[0-9]+\|`)
+
 var allSymKinds = []gcommon.SymKind{
 	gcommon.SymKindUnknown, gcommon.SymKindPackage, gcommon.SymKindStruct, gcommon.SymKindController, gcommon.SymKindInterface,
 	gcommon.SymKindAlias, gcommon.SymKindComposite, gcommon.SymKindTypeParam, gcommon.SymKindEnum, gcommon.SymKindEnumValue,
@@ -159,11 +163,14 @@ func measureGraph(p *pipeline.GleecePipeline, m *sMeasure) {
 	}
 	sort.Strings(ek)
 	m.Nodes, m.Edges = len(ids), len(ek)
-	m.Graph = sha(strings.Join(ids, "\n") + "\n--\n" + strings.Join(ek, "\n"))
+	m.Graph = sha(mtimeRe.ReplaceAllString(strings.Join(ids, "\n")+"\n--\n"+strings.Join(ek, "\n"), "|_|"))
 	strip := func(xs []string) []string {
 		out := make([]string, len(xs))
 		for i, x := range xs {
-			out[i] = posRe.ReplaceAllString(x, "@_@")
+			out[i] = mtimeRe.ReplaceAllString(posRe.ReplaceAllString(x, "@_@"), "|_|")
+			if touchDir != "" {
+				out[i] = strings.ReplaceAll(out[i], touchDir, "$DIR") // (a private copy of the project has the same shape)
+			}
 		}
 		sort.Strings(out)
 		return out
@@ -194,7 +201,13 @@ func measureDiags(diags []diagnostics.EntityDiagnostic, m *sMeasure) {
 		for _, d := range e.Diagnostics {
 			// the message text is left out: ApiValidator words a route conflict after whichever route it met first, and it meets
 			// them in graph (map) order - two fresh processes already differ there (determinism is C13's subject)
-			lines = append(lines, fmt.Sprintf("%s %s %d %s %d:%d-%d:%d", here, d.Code, d.Severity, d.FilePath,
+			fp := d.FilePath
+			if cwd, err := os.Getwd(); err == nil {
+				if rel, rerr := filepath.Rel(cwd, fp); rerr == nil && fp != "" {
+					fp = rel // (a session on a private copy of the project names the same files)
+				}
+			}
+			lines = append(lines, fmt.Sprintf("%s %s %d %s %d:%d-%d:%d", here, d.Code, d.Severity, fp,
 				d.Range.StartLine, d.Range.StartCol, d.Range.EndLine, d.Range.EndCol))
 		}
 		for _, c := range e.Children {
@@ -206,6 +219,29 @@ func measureDiags(diags []diagnostics.EntityDiagnostic, m *sMeasure) {
 	}
 	sort.Strings(lines)
 	m.HasDiag, m.NDiag, m.Diag = true, len(lines), sha(strings.Join(lines, "\n"))
+}
+
+// touchDir is the project directory of the session (set by sessionOne); touchSources re-saves its .go files byte for byte and
+// moves their modification time forward by whole seconds (each call further than the last).
+var touchDir string
+var touchShift = 0
+
+func touchSources(dir string) error {
+	touchShift += 3
+	return filepath.Walk(dir, func(p string, info os.FileInfo, err error) error {
+		if err != nil || info.IsDir() || !strings.HasSuffix(p, ".go") {
+			return err
+		}
+		b, rerr := os.ReadFile(p)
+		if rerr != nil {
+			return rerr
+		}
+		if werr := os.WriteFile(p, b, info.Mode()); werr != nil {
+			return werr
+		}
+		t := info.ModTime().Add(time.Duration(touchShift) * time.Second)
+		return os.Chtimes(p, t, t)
+	})
 }
 
 // doCall performs one call of the history on the pipeline and measures. held is the metadata the caller (the "editor") holds.
@@ -260,6 +296,11 @@ func doCall(p *pipeline.GleecePipeline, cfg *definitions.GleeceConfig, call stri
 		} else {
 			m.Spec = sha(string(b))
 		}
+	case "Touch":
+		// the environment's step: every source file of the project is saved again with the same bytes, a few seconds later
+		if err := touchSources(touchDir); err != nil {
+			m.Err = "harness: touch: " + err.Error()
+		}
 	default:
 		m.Err = "harness: unknown call " + call
 	}
@@ -287,6 +328,7 @@ func sessionOne(args []string) error {
 	if err := os.Chdir(abs); err != nil {
 		return err
 	}
+	touchDir = abs
 	logger.SetLogLevel(logger.LogLevelNone)
 	defer func() {
 		if p := recover(); p != nil {
@@ -341,6 +383,21 @@ func splitComma(s string) []string {
 func runSessionOne(self, dir string, hist []string, after bool, timeout time.Duration) (*sResult, string) {
 	ctx, cancel := context.WithTimeout(context.Background(), timeout)
 	defer cancel()
+	for _, call := range hist {
+		if call == "Touch" {
+			// a history that re-saves the sources works on a private copy of the project: other sessions share the original
+			priv, err := os.MkdirTemp(filepath.Dir(dir), filepath.Base(dir)+"-touch-")
+			if err != nil {
+				return nil, "private copy: " + err.Error()
+			}
+			defer os.RemoveAll(priv)
+			if out, err := exec.Command("cp", "-a", dir+"/.", priv).CombinedOutput(); err != nil {
+				return nil, fmt.Sprintf("private copy: %v: %s", err, out)
+			}
+			dir = priv
+			break
+		}
+	}
 	c := exec.CommandContext(ctx, self, "session-one", "--dir", dir, "--hist", strings.Join(hist, ","), fmt.Sprintf("--after=%v", after))
 	env := []string{}
 	for _, e := range os.Environ() {
@@ -774,6 +831,7 @@ func projectObs(m *sMeasure, base []sMeasure, firstGraph, firstSerials *sMeasure
 	if !(m.Nodes == 0 && m.Edges == 0) {
 		g["eqFresh"] = m.Shape == bGraph.Shape && m.Nodes == bGraph.Nodes && m.Edges == bGraph.Edges
 		g["eqFirst"] = firstGraph == nil || (m.Graph == firstGraph.Graph && m.Nodes == firstGraph.Nodes && m.Edges == firstGraph.Edges)
+		g["notGrown"] = firstGraph == nil || (m.Nodes <= firstGraph.Nodes && m.Edges <= firstGraph.Edges)
 	}
 	o["graph"] = g
 	d := map[string]any{"returned": m.HasDiag}
